@@ -373,6 +373,48 @@ impl Prop for Pairs {
     }
 }
 
+pub struct PairsLarge;
+impl Prop for PairsLarge {
+    type Case = PairCase;
+    fn name() -> &'static str {
+        "pairs-large"
+    }
+    fn rule() -> &'static str {
+        "proptest: 130-300 accepted pairs (plus a few rejected shapes of another type) through the memory and from_path routes; the          pairs oracle; non-trivial: every case"
+    }
+    fn check(c: &PairCase, ctx: &mut Ctx) -> Result<(), Fail> {
+        ctx.nontrivial();
+        Pairs::check(c, ctx)
+    }
+}
+impl RandomProp for PairsLarge {
+    fn strategy(_env: &Env) -> BoxedStrategy<PairCase> {
+        (gen::ty13(), 1usize..13, 0u8..3)
+            .prop_flat_map(|(ty, shift, route)| {
+                let other = ALL13[(ty.index13() + shift) % 13];
+                let cfg = gen::GenCfg::new(gen::Profile::Small, false, 2, 3);
+                let call = prop_oneof![12 => Just(Call::Ok), 1 => Just(Call::Mismatch)];
+                (proptest::collection::vec(call, 140..300), proptest::collection::vec(gen::geom(ty, cfg), 1..4), gen::geom(other, cfg)).prop_map(
+                    move |(mut calls, geoms, other_geom)| {
+                        calls[0] = Call::Ok;
+                        PairCase {
+                            ty,
+                            other,
+                            calls,
+                            geoms,
+                            other_geom,
+                            route,
+                        }
+                    },
+                )
+            })
+            .boxed()
+    }
+    fn cases(env: &Env) -> u64 {
+        env.n(13 * 6, 13 * 300)
+    }
+}
+
 impl RandomProp for Pairs {
     fn strategy(_env: &Env) -> BoxedStrategy<PairCase> {
         (gen::ty13(), 1usize..13, prop_oneof![2 => Just(0u8), 1 => Just(1u8), 1 => Just(2u8)], any::<bool>())
